@@ -35,6 +35,17 @@ def main():
         place = ""
     tests = re.findall(r"^func (Test\w+)\(", open(demo).read(), re.M)
     meta = {"property": prop, "name": name, "repo_head": sh("git -C /repo rev-parse --short HEAD")[1].strip(), "ran": [], "demo_tests": tests, "demo_place": place or ".", "demo_uses_race_detector": race}
+    recheck = "--recheck" in opts and os.path.exists(os.path.join(VERIF, "seeded", name, "meta.json"))
+    if recheck:
+        old = json.load(open(os.path.join(VERIF, "seeded", name, "meta.json")))
+        if not old.get("confirmed"):
+            print("not a confirmed seed")
+            return 3
+        for k in ("suite_passes_with_change", "demo_fails_with_change", "demo_passes_without_change", "ran", "needs_to_manifest"):
+            if k in old:
+                meta[k] = old[k]
+        opts.setdefault("--needs", old.get("needs_to_manifest", "see notes.md"))
+        patch = os.path.join(VERIF, "seeded", name, "patch.diff")
     wt = f"/tmp/sv_{name}"
     sh(f"git -C /repo worktree remove --force {wt}")
     rc, out = sh(f"git -C /repo worktree add --detach {wt} HEAD")
@@ -43,6 +54,13 @@ def main():
         return 2
     ok = True
     try:
+        if recheck:
+            rc, out = sh(f"git apply {patch}", cwd=wt)
+            if rc:
+                print("STORED PATCH NO LONGER APPLIES\n" + out)
+                return 2
+            newpatch = sh("git diff", cwd=wt)[1]
+            raise StopIteration
         rc, out = sh(f"git apply --3way {patch} 2>&1 || git apply {patch}", cwd=wt)
         meta["ran"].append({"cmd": "git apply patch.diff (scratch worktree)", "rc": rc})
         if rc:
@@ -77,7 +95,7 @@ def main():
         if fails == 0:
             print("DEMO DOES NOT FAIL WITH CHANGE")
             ok = False
-        sh("git stash -q", cwd=wt)  # removes the patch, keeps the untracked demo
+        sh("git checkout -q -- .", cwd=wt)  # removes the patch, keeps the untracked demo (no git stash: the stash is shared by all worktrees)
         passes = 0
         for i in range(3):
             rc, out = sh(cmd, cwd=wt)
@@ -88,13 +106,35 @@ def main():
         if passes < 3:
             print("DEMO DOES NOT PASS ON THE UNCHANGED TREE\n" + out)
             ok = False
+    except StopIteration:
+        pass
     finally:
         sh(f"git -C /repo worktree remove --force {wt}")
         sh("git -C /repo worktree prune")
     meta["confirmed"] = ok
     det = {}
-    if ok:
-        # run the checks against /repo with the change applied
+    if ok and "--inplace" not in opts:
+        # parallel-safe mode: a scratch worktree with the change + VERIF_REPO/VERIF_OUT (nothing in /repo or /verif is touched)
+        wt2, out2 = f"/tmp/svr_{name}", f"/tmp/svo_{name}"
+        sh(f"git -C /repo worktree remove --force {wt2}; rm -rf {out2}; mkdir -p {out2}")
+        tmp = f"/tmp/sv_{name}.diff"
+        open(tmp, "w").write(newpatch)
+        rc, out = sh(f"git -C /repo worktree add --detach {wt2} HEAD && git -C {wt2} apply {tmp}")
+        try:
+            if rc:
+                print("cannot prepare scratch tree", out)
+                return 2
+            for c in checks:
+                t0 = time.time()
+                rc, out = sh(f"VERIF_REPO={wt2} VERIF_OUT={out2} ./run.sh {c} {tier}", cwd=VERIF, timeout=7200)
+                det[c] = {"rc": rc, "mode": "scratch worktree via VERIF_REPO", "wall_s": round(time.time() - t0, 1), "violation_keys": [l.strip()[4:] for l in out.splitlines() if l.startswith("  key=")][:12]}
+                print(f"check {c} {tier}: rc={rc}", *det[c]["violation_keys"][:6], sep="\n   ")
+                if rc not in (0, 1):
+                    print(out[-3000:])
+        finally:
+            sh(f"git -C /repo worktree remove --force {wt2}; git -C /repo worktree prune; rm -rf {out2} {tmp}")
+    elif ok:
+        # the procedure of the brief: apply to /repo itself, run the checks, undo straight afterwards
         tmp = f"/tmp/sv_{name}.diff"
         open(tmp, "w").write(newpatch)
         st = sh("git -C /repo status --porcelain")[1].strip()
@@ -105,21 +145,19 @@ def main():
         if rc:
             print("cannot apply to /repo", out)
             return 2
+        out2 = f"/tmp/svo_{name}"
+        sh(f"rm -rf {out2}; mkdir -p {out2}")
         try:
             for c in checks:
                 t0 = time.time()
-                # evidence and replays are rewritten by the run: work on copies so /verif stays as committed
-                rc, out = sh(f"VERIF_SEEDED=1 ./run.sh {c} {tier}", cwd=VERIF, timeout=7200)
-                viol = [l for l in out.splitlines() if l.startswith("VIOLATION") or l.startswith("  key=")]
-                det[c] = {"rc": rc, "wall_s": round(time.time() - t0, 1), "violation_keys": [l.strip()[4:] for l in out.splitlines() if l.startswith("  key=")][:12]}
+                rc, out = sh(f"VERIF_OUT={out2} ./run.sh {c} {tier}", cwd=VERIF, timeout=7200)
+                det[c] = {"rc": rc, "mode": "applied to /repo (git apply), undone afterwards", "wall_s": round(time.time() - t0, 1), "violation_keys": [l.strip()[4:] for l in out.splitlines() if l.startswith("  key=")][:12]}
                 print(f"check {c} {tier}: rc={rc}", *det[c]["violation_keys"][:6], sep="\n   ")
                 if rc not in (0, 1):
                     print(out[-3000:])
         finally:
             sh("git -C /repo checkout -- . && git -C /repo clean -fdq")
-            os.remove(tmp)
-        # restore evidence/replays of the unchanged tree
-        sh("git checkout -- evidence replays 2>/dev/null; git clean -fdq replays evidence", cwd=VERIF)
+            sh(f"rm -rf {out2} {tmp}")
     meta["checks"] = det
     meta["detected_by"] = [c for c, d in det.items() if d["rc"] == 1]
     out = os.path.join(VERIF, "seeded", name)
